@@ -19,6 +19,7 @@ fn property(id: &str) -> Option<Box<dyn Property>> {
         "C02" => Some(Box::new(props::c02::C02)),
         "C03" => Some(Box::new(props::c03::C03)),
         "C04" => Some(Box::new(props::c04::C04)),
+        "C07" => Some(Box::new(props::c07::C07)),
         "C10" => Some(Box::new(props::c10::C10)),
         "C14" => Some(Box::new(props::c14::C14)),
         "C15" => Some(Box::new(props::c15::C15)),
